@@ -86,8 +86,9 @@ def load_findings():
 
 def assert_repo_import():
     import mpf
-    if not os.path.abspath(mpf.__file__).startswith('/repo/'):
-        raise Machinery('mpf imported from %s, not /repo' % mpf.__file__)
+    repo = os.path.abspath(os.environ.get('VERIF_REPO', '/repo'))
+    if not os.path.abspath(mpf.__file__).startswith(repo + '/'):
+        raise Machinery('mpf imported from %s, not %s' % (mpf.__file__, repo))
 
 
 def write_evidence(ctx, level, n_viol):
@@ -116,7 +117,7 @@ def main(argv=None):
     a = ap.parse_args(argv)
     pid = a.pid.upper()
     os.environ.setdefault('PYTHONHASHSEED', '0')
-    sys.path.insert(0, '/repo')
+    sys.path.insert(0, os.environ.get('VERIF_REPO', '/repo'))
     sys.path.insert(0, VERIF)
     ctx = Ctx(pid, a.tier, a.seed, a.replay)
     rc = 2
@@ -139,7 +140,7 @@ def main(argv=None):
         for sig, v in seen_known.items():
             print('KNOWN-FINDING: property=%s %s [%s]' % (pid, ksigs[sig].get('what', v['what']), sig))
         ctx.coverage['known_findings_seen'] = sorted(seen_known)
-        if not a.replay:
+        if not a.replay and not os.environ.get('VERIF_NO_EVIDENCE'):
             write_evidence(ctx, getattr(mod, 'LEVEL', 'model_checking'), len(new))
         if new:
             os.makedirs(os.path.join(VERIF, 'evidence', 'replay'), exist_ok=True)
